@@ -40,8 +40,8 @@ Definition chk_sext := both
   (fun c : Z * Z * Z * Z => let '(v, w, nw, r) := c in signExtend v w nw =? r)
   (fun c => let '(v, w, nw, r) := c in sign_extend_spec v w nw =? r).
 (* ---- FixedPoint: (sw, iw, fw, a, b, add, sub, mult) *)
-(* iw0: the implementation constructs formats without integer bits (finding #23 repaired); read off by the probe *)
-Definition fx_ctor (iw0 : bool) := if iw0 then FixedPoint_intToFixedPoint_r else FixedPoint_intToFixedPoint.
+(* iw0: the implementation constructs formats without integer bits (true since 6fe767a); read off by the probe, false = regression *)
+Definition fx_ctor (iw0 : bool) := if iw0 then FixedPoint_intToFixedPoint else FixedPoint_intToFixedPoint_before_6fe767a.
 Definition chk_fx (iw0 : bool) := both
   (fun c : Z * Z * Z * Z * Z * Z * Z * Z => let '(sw, iw, fw, a, b, r1, r2, r3) := c in
      oz_eqb (FixedPoint_add_gen (fx_ctor iw0) sw iw fw a b) r1 && oz_eqb (FixedPoint_sub_gen (fx_ctor iw0) sw iw fw a b) r2 &&
